@@ -11,6 +11,7 @@ import time
 from scratch import VERIF, KANI_DIR, src_for_harness_file
 
 KANI_FLAGS = ["--features", "h2_verif", "-Z", "function-contracts", "-Z", "stubbing"]
+SOLVER = os.environ.get("H2V_SOLVER", "minisat")  # measured: minisat 30 s, cadical 89 s, kissat 282 s on prio_pop_pending_open
 ENV = dict(os.environ, CARGO_NET_OFFLINE="true", CARGO_TERM_COLOR="never")
 
 HARNESS_RE = re.compile(r"//\s*@harness\s+(.*)")
@@ -53,6 +54,7 @@ def scan_catalogue(kani_dir=None):
                 "tier": kv.get("tier", "quick"),
                 "fns": kv.get("fn", "").split(","),
                 "timeout": int(kv.get("timeout", "0")),
+                "solver": kv.get("solver", ""),
                 "obligations": obl,
                 "covers": covers,
                 "expect_fail": kv.get("expect", "") == "fail",
@@ -118,7 +120,7 @@ def parse_output(out):
 
 def run_harness(scratch, h, timeout_s, mem_gb, logdir, extra=()):
     t0 = time.time()
-    cmd = ["cargo", "kani"] + KANI_FLAGS + ["--exact", "--harness", h["path"]] + list(extra)
+    cmd = ["cargo", "kani"] + KANI_FLAGS + ["--exact", "--harness", h["path"], "--solver", h.get("solver") or SOLVER] + list(extra)
     log = os.path.join(logdir, h["id"] + ".log")
     try:
         p = subprocess.Popen(cmd, cwd=scratch, env=ENV, stdout=subprocess.PIPE, stderr=subprocess.STDOUT,
